@@ -117,3 +117,12 @@ TEXT.update({
         "technique": _T + "; unconstrained request parameters, libc models record the kernel requests",
     },
 })
+
+TEXT.update({
+    "C13": {
+        "level": "Differential against std: each volatile adapter and the corresponding std::io::Read/Write impl run on twin streams with symbolic content, length and (cursors) 64-bit position, two consecutive calls: same count, same landed bytes incl. the untouched tail (symbolic index), same remaining slice/position/vector; exact variants succeed iff std's do, with UnexpectedEof/WriteZero. Descriptor path: exactly one read(2)/write(2) with the guard's pointer and the buffer length, result passed through.",
+        "design_ref": "DESIGN.md §4 C13",
+        "note": "streams <= 10 bytes, 2 calls; Vec shapes concrete; Vec::write_all_volatile outside (engine memory)",
+        "technique": _T + "; differential against the std::io impls on twin streams",
+    },
+})
